@@ -48,7 +48,7 @@ def job_for(ctx, contract, unit, cases, observe=None, shapes=None):
         "requires": contract.requires, "raises": contract.raises, "params": params, "kwonly": kwonly,
         "cases": cases, "observe": observe or sorted(_path_expr(p) for p in types if "." in p or p in params),
         "patches": contract.native.get("patches", {}), "spec_funs": contract.native.get("spec_funs", {}),
-        "class_fields": contract.class_fields,
+        "class_fields": contract.class_fields, "construct": contract.native.get("construct", []),
         "int_window": contract.native.get("int_window", [-2, 16]),
     }
 
